@@ -75,11 +75,49 @@ func (c *C04Write) Run() string {
 			}
 			_, lerr = tensor.Neg(t, tensor.UseUnsafe())
 		case "UnsafeAddScalar":
-			s := conv(d, c.Code)
-			for k := range want {
-				want[k], _ = binop("Add", A.arr.E[k], s)
+			// an in-place operation with a scalar on either side; which one is picked by the case's code
+			s := conv(d, 1+c.Code%7)
+			ops := []string{"Add", "Sub", "Mul", "Add", "Sub", "Mul"}
+			if d.IsInt() {
+				ops = append(ops, "Mod", "Mod")
 			}
-			_, lerr = tensor.Add(t, s, tensor.UseUnsafe())
+			op := ops[int(c.Code/7)%len(ops)]
+			left := (c.Code/3)%2 == 1 // the scalar is the left operand
+			if op == "Mod" && left {
+				for k := range A.arr.E { // s % a: keep the divisors away from zero
+					if eqVal(A.arr.E[k], conv(d, 0)) {
+						left = false
+					}
+				}
+			}
+			for k := range want {
+				if left {
+					want[k], _ = binop(op, s, A.arr.E[k])
+				} else {
+					want[k], _ = binop(op, A.arr.E[k], s)
+				}
+			}
+			if left {
+				_, lerr = pkgBinary[op](s, t, tensor.UseUnsafe())
+			} else {
+				_, lerr = pkgBinary[op](t, s, tensor.UseUnsafe())
+			}
+		case "CopyCross":
+			// the source is another view of the same storage that starts at the same element: the view is
+			// column 0 of a square matrix, the source its row 0 (they share exactly the first element)
+			if len(b.RootShp) != 2 || b.RootShp[0] != b.RootShp[1] || b.Root == nil || b.Root == t {
+				msg = inconclusive
+				return
+			}
+			row, err := b.Root.Slice(RS{0, 1, 1})
+			if err != nil || !eqInts([]int(row.Shape()), c.A.Shape) {
+				msg = inconclusive
+				return
+			}
+			for k := range want {
+				want[k] = b.RootE[k] // row 0 of the root, in order
+			}
+			lerr = tensor.Copy(t, row)
 		case "CopyIntoFlat":
 			// from a vector with as many elements: they land in logical (row-major) order of the view
 			flat := Opnd{Shape: []int{n}, Codes: make([]int64, n), L: Layout{Root: "rm"}}
@@ -414,7 +452,7 @@ var c04SrcKinds = []string{"contig", "sliced", "stepsliced", "lazyT", "slicedT",
 var c04DTs = []DT{dtInt8, dtBool, dtInt16, dtF32, dtF64, dtC128, dtStr, dtUint32}
 
 func TestC04(t *testing.T) {
-	writes := []string{"Memset", "Zero", "SetAtSweep", "UnsafeNeg", "UnsafeAdd", "UnsafeAddScalar", "CopyInto", "CopyIntoFlat", "ApplyUnsafe", "RootSetAt"}
+	writes := []string{"Memset", "Zero", "SetAtSweep", "UnsafeNeg", "UnsafeAdd", "UnsafeAddScalar", "CopyInto", "CopyIntoFlat", "CopyCross", "ApplyUnsafe", "RootSetAt"}
 	for _, w := range writes {
 		for _, vk := range c04ViewKinds {
 			w, vk := w, vk
@@ -429,7 +467,14 @@ func TestC04(t *testing.T) {
 				c.A = genOpnd(rt, shape, vk, 0, 30, 0, "a")
 				if w == "UnsafeAdd" || w == "CopyInto" {
 					s := genOpnd(rt, shape, rapid.SampledFrom(c06LayoutKinds).Draw(rt, "ls"), 31, 60, 0, "s")
+					if rapid.IntRange(0, 2).Draw(rt, "samelayout") == 0 {
+						s.L = c.A.L // the same slice of another parent: identical shape, strides and window
+					}
 					c.Src = &s
+				}
+				if w == "CopyCross" {
+					n := rapid.IntRange(2, 4).Draw(rt, "n")
+					c.A = Opnd{Shape: []int{n}, Codes: genCodes(rt, n, 0, 30, 0, "cv"), L: Layout{Root: "rm", Steps: []LStep{{Op: "pick", Axis: 1, Size: n, Idx: 0}}}}
 				}
 				if (w == "UnsafeAdd" || w == "UnsafeAddScalar") && d.IsFloat() && rapid.Bool().Draw(rt, "eng") {
 					c.Eng = map[string]string{"float32": "f32", "float64": "f64"}[d.Name]
